@@ -360,8 +360,12 @@ void ep8_mul_sim_joint(ep8_t r, const ep8_t p, const bn_t k, const ep8_t q,
 
 void ep8_mul_sim_gen(ep8_t r, const bn_t k, const ep8_t q, const bn_t m) {
 	ep8_t gen;
+	bn_t n, _k, _m;
 
 	ep8_null(gen);
+	bn_null(n);
+	bn_null(_k);
+	bn_null(_m);
 
 	if (bn_is_zero(k)) {
 		ep8_mul(r, q, m);
@@ -374,12 +378,19 @@ void ep8_mul_sim_gen(ep8_t r, const bn_t k, const ep8_t q, const bn_t m) {
 
 	RLC_TRY {
 		ep8_new(gen);
+		bn_new(n);
+		bn_new(_k);
+		bn_new(_m);
 
 		ep8_curve_get_gen(gen);
+		ep8_curve_get_ord(n);
+		/* The recoding buffers hold 2 * RLC_FP_BITS digits. */
+		bn_mod(_k, k, n);
+		bn_mod(_m, m, n);
 #if EP_FIX == LWNAF && defined(EP_PRECO)
-		ep8_mul_sim_plain(r, gen, k, q, m, ep8_curve_get_tab());
+		ep8_mul_sim_plain(r, gen, _k, q, _m, ep8_curve_get_tab());
 #else
-		ep8_mul_sim(r, gen, k, q, m);
+		ep8_mul_sim(r, gen, _k, q, _m);
 #endif
 	}
 	RLC_CATCH_ANY {
@@ -387,6 +398,9 @@ void ep8_mul_sim_gen(ep8_t r, const bn_t k, const ep8_t q, const bn_t m) {
 	}
 	RLC_FINALLY {
 		ep8_free(gen);
+		bn_free(n);
+		bn_free(_k);
+		bn_free(_m);
 	}
 }
 
